@@ -24,7 +24,7 @@ TRUSTED_BASE = [
 ASSUMPTIONS_COMMON = [
     'A-meta: structural / fixpoint induction combining per-class contracts into a statement about every grammar is a paper argument (DESIGN.md 4)',
     'A-subst: a parent uses a child only through child.compile() and the two static flags (backed dynamically: every attribute of an abstract child read from outside it while the real generator ran is recorded and must belong to the child interface - obligations `backing:A-subst` in C01/C02/C03/C05/C06)',
-    'A-uniform: the generator emits the same template for literal values beyond the sentinel literals and for arities beyond those proved (Choice and Longest are proved for every arity by segment induction, Seq / class bodies by closure checks at arity 5..8; backed syntactically: generator branches read literal payloads only as empty/None/0/1 tests - `backing:A-uniform` in C01)',
+    'A-uniform: the generator emits the same template for literal values beyond the sentinel literals and for arities beyond those proved (Choice, Longest, Skip and Seq are proved for every arity by segment induction, class bodies by closure checks at arity 5..8; backed syntactically: generator branches read literal payloads only as empty/None/0/1 tests - `backing:A-uniform` in C01)',
     'A-wf: grammars are well-formed (no left recursion, no repetition of an expression that can succeed without consuming); parsing terminates; partial correctness only',
     'A-user: inline Python, predicates and callbacks are pure, total and do not raise',
     'Python integers are mathematical integers (exact for CPython int); no machine arithmetic involved',
